@@ -284,7 +284,7 @@ def run_ops_impl(F, ops):
                 continue
             try:
                 r = d(op_value(op, objs))
-                res.append(r if type(r) is str else (str(r) if isinstance(r, str) and op[2] == "str" else "not-a-str %r" % (r,)))
+                res.append(str(r) if isinstance(r, str) else "not-a-str %r" % (r,))
             except Exception as e:
                 res.append("raises " + type(e).__name__)
     return res
